@@ -86,7 +86,7 @@ CLAIMS = {
                 "four modified rules as 'F(date), unless the month differs then G(original date)' with F, G opposite members of one family; both "
                 "dispatch tables per modifier (Act = identity) and roll()'s table selection; no calendar type overrides a provided method. The idiom's "
                 "postcondition is the statement; calendars never enter the argument, so it holds for arbitrary calendars."
-                " Also included: C06's predicate rules R06.0-R06.2 and the Python-facing calendar methods (R05.6: arguments handed to the core methods unchanged).",
+                " Also included: C06's predicate rules R06.0-R06.2 and the Python-facing calendar methods (R05.6: arguments handed to the core methods unchanged); R06.3/R06.6: a named or explicit combination is built from exactly the calendars named or given.",
         "design_ref": "DESIGN.md §4 C04",
         "note": "Not decided: termination; dates outside chrono's range. Trusted: lib/cel.py loop summarisation; chrono's day arithmetic.",
         "technique": "symbolic summarisation of loops and dispatch tables over typed HIR, compared with idiom normal forms",
